@@ -285,12 +285,13 @@ def check(case):
     return fails
 
 
-def check_entity(mods, name):
-    """&dtml-n; == <dtml-var n html_quote>; &dtml.m1.m2-n; == var n m1 m2."""
+def check_entity(mods, name, dotted=False):
+    """&dtml-n; == <dtml-var n html_quote>; &dtml.m1.m2-n; == var n m1 m2;
+    the dotted form with an empty modifier list, &dtml.-n;, == var n."""
     fails = []
-    ent = ('&dtml.%s-%s;' % ('.'.join(mods), name)) if mods else \
+    ent = ('&dtml.%s-%s;' % ('.'.join(mods), name)) if mods or dotted else \
         '&dtml-%s;' % name
-    opts = ' '.join(mods) if mods else 'html_quote'
+    opts = ' '.join(mods) if mods or dotted else 'html_quote'
     forms = dict(entity=('dtml', ent),
                  dtml=('dtml', '<dtml-var %s %s>' % (name, opts)),
                  ssi=('ssi', '<!--#var %s %s-->' % (name, opts)),
@@ -577,6 +578,12 @@ def run_shard(shard):
                              distinct_by_construction=True)
                     for b, msg in check_entity(list(mods), name):
                         acc.fail(b, case, msg)
+        for name in ('va', 'sequence-item', 'x_1.y', 'a-b-c'):
+            case = ['entity', [], name, 'dotted']
+            acc.case(case, True, klass='entity-no-modifiers',
+                     distinct_by_construction=True)
+            for b, msg in check_entity([], name, dotted=True):
+                acc.fail(b + ':no-modifiers', case, msg)
         return acc.result()
     if shard['kind'] == 'encoded':
         for case in encoding_cases():
@@ -632,7 +639,7 @@ def replay(case):
         f = check_error(case)
         return f if f and f != 'skip' else None
     if isinstance(case, list) and case and case[0] == 'entity':
-        f = check_entity(case[1], case[2])
+        f = check_entity(case[1], case[2], dotted=len(case) > 3)
     else:
         f = check(case)
     return f[0] if f else None
